@@ -274,7 +274,7 @@ class X:
         if e.id in self.module.imports:
             return Opaque('import:%s' % '.'.join(x for x in self.module.imports[e.id] if x))
         if e.id in ('int', 'float', 'str', 'len', 'range', 'tuple', 'list', 'dict', 'abs', 'min', 'max', 'sum',
-                    'bool', 'enumerate', 'zip', 'any', 'all', 'isinstance', 'sorted', 'set', 'map', 'print', 'divmod',
+                    'bool', 'enumerate', 'zip', 'next', 'any', 'all', 'isinstance', 'sorted', 'set', 'map', 'print', 'divmod',
                     'ValueError', 'TypeError', 'NotImplementedError', 'KeyError'):
             return Opaque('builtin:' + e.id)
         raise Unsupported('name %s (line %d)' % (e.id, e.lineno))
@@ -430,6 +430,8 @@ class X:
                 return h(self, st, b)
             if name in b.fields:
                 return b.fields[name]
+            if ('method', b.tag, name) in self.intr:
+                return ('hookmethod', b, name)          # a contract-level method of a tagged object, whatever name the object is reached through
             if b.cls is not None:
                 if b.cls.has_attr(name):
                     return b.cls.lookup_attr(name)
@@ -478,6 +480,8 @@ class X:
                 return f
             if b.has_attr(name):
                 return b.lookup_attr(name)
+        if isinstance(b, Red) and name in ('sum', 'prod', 'all', 'any', 'min', 'max'):
+            return ('arrmethod', b, name)               # reduction of a reduction (e.g. a.sum(axis=1).min())
         raise Unsupported('attribute %s of %s' % (name, type(b).__name__))
 
     def ev_Subscript(self, e, env, st):
@@ -861,7 +865,43 @@ class X:
         raise Unsupported('in %s' % type(container).__name__)
 
     # ---------------------------------------------------------------- calls
+    # --- aliasing of value containers -------------------------------------------------------------------------------------------------------
+    # D / M / T / Arr are immutable values in this executor; a store builds a new value and rebinds the name it was reached through.  Python containers are
+    # shared objects: every other reference to the same object (a local alias of a field, the caller's variable passed as an argument, a field holding it)
+    # must see the store as well.  Every functional update is therefore logged as (old object, new object) and replayed, by identity, on the environment of
+    # the current frame and - when a call returns - on the environment of the caller.
+    def _rebind_in(self, holder, old, new, depth=0):
+        if isinstance(holder, Obj):
+            for k_, v_ in list(holder.fields.items()):
+                if v_ is old:
+                    holder.fields[k_] = new
+                elif depth < 2 and isinstance(v_, Obj):
+                    self._rebind_in(v_, old, new, depth + 1)
+
+    def _apply_rebinds(self, env, pairs):
+        for old, new in pairs:
+            for k_, v_ in list(env.items()):
+                if v_ is old:
+                    env[k_] = new
+                elif isinstance(v_, Obj):
+                    self._rebind_in(v_, old, new)
+
+    def _log_rebind(self, old, new, env):
+        if old is not None and old is not new and isinstance(old, (D, M, T, Arr)):
+            if not hasattr(self, '_rebinds'):
+                self._rebinds = []
+            self._rebinds.append((old, new))
+            self._apply_rebinds(env, [(old, new)])
+
     def ev_Call(self, e, env, st):
+        n0 = len(getattr(self, '_rebinds', []))
+        r = self._ev_Call(e, env, st)
+        pend = getattr(self, '_rebinds', [])[n0:]
+        if pend:
+            self._apply_rebinds(env, pend)       # stores made by the callee through its parameters / through self are visible to the caller's names
+        return r
+
+    def _ev_Call(self, e, env, st):
         f = e.func
         # intrinsic by dotted source name first (np.xxx, os.path.xxx, self.xxx on tagged objects)
         dotted = None
@@ -909,6 +949,8 @@ class X:
     pos_div = False
 
     def apply(self, fv, args, kwargs, st, node=None):
+        if isinstance(fv, tuple) and fv and fv[0] == 'hookmethod':
+            return self.intr[('method', fv[1].tag, fv[2])](self, st, fv[1], args, kwargs)
         if isinstance(fv, tuple) and fv and fv[0] == 'bound':
             _, func, obj = fv
             h = self.intr.get(('method', obj.tag, func.node.name))
@@ -1074,16 +1116,34 @@ class X:
             if isinstance(v, Arr):
                 return Red(name, v)
             raise Unsupported(name)
+        if name == 'next' and 1 <= len(args) <= 2 and isinstance(args[0], T):
+            # next(<generator over a finite list with an optional symbolic filter>, default): the first element whose guard holds
+            items = args[0].items; gs = getattr(args[0], 'guards', None) or [TRUE] * len(items)
+            alts, none_before = [], TRUE
+            for g_, it_ in zip(gs, items):
+                alts.append((z3.simplify(z3.And(none_before, g_)), it_))
+                none_before = z3.simplify(z3.And(none_before, z3.Not(g_)))
+            if len(args) == 2:
+                alts.append((none_before, args[1]))
+            else:
+                st.add_raise(none_before, 'StopIteration', getattr(node, 'lineno', 0))
+            alts = [(c_, v_) for c_, v_ in alts if not z3.is_false(c_)]
+            return alts[0][1] if len(alts) == 1 and z3.is_true(alts[0][0]) else Alt(alts)
         if name == 'enumerate':
             v = args[0]
             if isinstance(v, T):
                 return T([T([i, x]) for i, x in enumerate(v.items)], 'list')
+            if isinstance(v, Obj) and ('len', v.tag) in self.intr and ('index', v.tag) in self.intr:
+                # a tagged sequence given by its length and element contracts
+                v = Arr((self.intr[('len', v.tag)](self, st, v),), (lambda i, v=v: self.intr[('index', v.tag)](self, st, v, i)), 'obj', 'seq:' + v.tag)
             if isinstance(v, Arr):
                 return ('enumerate', v)
             raise Unsupported('enumerate')
         if name == 'zip':
             if all(isinstance(a, T) for a in args):
                 return T([T(list(xs)) for xs in zip(*[a.items for a in args])], 'list')
+            if args and all(isinstance(a, Arr) and a.rank >= 1 for a in args):
+                return ('zip', list(args))
             raise Unsupported('zip')
         if name == 'isinstance':
             v, t = args
@@ -1441,6 +1501,14 @@ class X:
                 self.eager((it.b,), f, st)
                 return Arr((it.b,), f, 'obj', 'fresh')
             it = self._range_items(it)
+        if isinstance(it, tuple) and it and it[0] in ('zip', 'enumerate') and kind == 'list' and not g.ifs:
+            # comprehension over zip(...) / enumerate(...) of symbolic sequences: the i-th element is the tuple of the i-th elements
+            seqs = [it[1]] if it[0] == 'enumerate' else list(it[1])
+            n0 = seqs[0].shape[0]
+            for a_ in seqs[1:]:
+                if conc(z3.simplify(Z(a_.shape[0]) == Z(n0))) is not True:
+                    raise Unsupported('zip over sequences of different (symbolic) length')
+            it = Arr((n0,), (lambda i, seqs=seqs, kind_=it[0]: T([i, seqs[0].f(i)]) if kind_ == 'enumerate' else T([a_.f(i) for a_ in seqs])), 'obj', 'fresh')
         if isinstance(it, Arr) and it.rank == 1 and kind == 'list' and not g.ifs:
             live_c = st.live
 
@@ -1450,7 +1518,11 @@ class X:
                 if ls is not self._lazy:
                     ls.live = live_c
                 self.assign(g.target, it.f(i), env2, ls)
-                return self.ev(e.elt, env2, ls)
+                self.comp_idx = self.comp_idx + [i]          # the element index is the generic iteration index (hooks keyed on it, e.g. one draw per qubit)
+                try:
+                    return self.ev(e.elt, env2, ls)
+                finally:
+                    self.comp_idx = self.comp_idx[:-1]
             self.eager(it.shape, f2, st)
             return Arr(it.shape, f2, 'obj', 'fresh')
         if hasattr(it, 'acc_comp'):
@@ -1551,7 +1623,9 @@ class X:
     def _store_back(self, node, new, env, st):
         """write a functionally-updated container back to the variable / field / dict slot naming it"""
         if isinstance(node, ast.Name):
+            old_ = env.get(node.id)
             env[node.id] = new
+            self._log_rebind(old_, new, env)
         elif isinstance(node, ast.Subscript):
             base = self.ev(node.value, env, st)
             if isinstance(base, D):
@@ -1570,7 +1644,9 @@ class X:
         elif isinstance(node, ast.Attribute):
             obj = self.ev(node.value, env, st)
             if isinstance(obj, Obj):
+                old_ = obj.fields.get(node.attr)
                 obj.fields[node.attr] = new
+                self._log_rebind(old_, new, env)
                 return
             raise Unsupported('store to attribute')
         else:
@@ -1866,6 +1942,32 @@ class X:
                     return h(self, st, s, it[1], env)
                 raise
             it = T([T(list(c)) for c in itertools.product(*lists)], 'list')
+        if isinstance(it, tuple) and it and it[0] in ('enumerate', 'zip') and (isinstance(it[1], Arr) or isinstance(it[1], list)):
+            # desugared to the index loop `for i in range(n): targets = seq_k[i]; body`, which the registered range-loop rule (e.g. R-pointwise) handles
+            seqs = [it[1]] if it[0] == 'enumerate' else list(it[1])
+            n0 = seqs[0].shape[0]
+            for a_ in seqs[1:]:
+                if conc(z3.simplify(Z(a_.shape[0]) == Z(n0))) is not True:
+                    raise Unsupported('zip over sequences of different (symbolic) length')
+            tag_ = next(self.fresh_id)
+            ivar = '__i%d' % tag_
+            names = []
+            for k_, a_ in enumerate(seqs):
+                nm_ = '__seq%d_%d' % (tag_, k_); env[nm_] = a_; names.append(nm_)
+            elem = lambda nm_: ast.Subscript(value=ast.Name(id=nm_, ctx=ast.Load()), slice=ast.Name(id=ivar, ctx=ast.Load()), ctx=ast.Load())     # noqa
+            if it[0] == 'enumerate':
+                if not (isinstance(s.target, ast.Tuple) and len(s.target.elts) == 2):
+                    raise Unsupported('enumerate target')
+                pre = [ast.Assign(targets=[s.target.elts[0]], value=ast.Name(id=ivar, ctx=ast.Load())), ast.Assign(targets=[s.target.elts[1]], value=elem(names[0]))]
+            elif isinstance(s.target, ast.Tuple) and len(s.target.elts) == len(seqs):
+                pre = [ast.Assign(targets=[t_], value=elem(nm_)) for t_, nm_ in zip(s.target.elts, names)]
+            else:
+                pre = [ast.Assign(targets=[s.target], value=ast.Tuple(elts=[elem(nm_) for nm_ in names], ctx=ast.Load()))]
+            new_for = ast.For(target=ast.Name(id=ivar, ctx=ast.Store()), iter=s.iter, body=pre + list(s.body), orelse=[], lineno=s.lineno, col_offset=0)
+            for nd_ in pre:
+                ast.copy_location(nd_, s)
+            ast.fix_missing_locations(new_for)
+            return self.for_over(new_for, R(0, n0, 1), env, st)
         if isinstance(it, Alt):
             outer = st.live
             for cond, lst in it.alts:
